@@ -155,7 +155,20 @@ def apply_op(U, op, letters):
         prm = {}
         for name, role in op["prms"].items():
             prm[name] = arr(role)
-        mdl = cls(dims=dims, time_letter="t", **prm)
+        if op.get("via") == "set_prms":
+            mdl = cls(dims=dims, time_letter="t")
+            mdl.set_prms(**prm)
+        else:
+            mdl = cls(dims=dims, time_letter="t", **prm)
+        if op.get("touch"):
+            # the caller goes on using (and updating) its own parameter array after handing it over,
+            # before the tables are first evaluated; what the model then computes is either the old or
+            # the new values by design - but the same choice for every storage order
+            first = prm[next(iter(op["prms"]))]
+            if op["touch"] == "values":
+                first.values[...] = first.values * 1.5
+            else:
+                first[...] = first * 1.5
         return np.array(mdl.sf), None
     raise ValueError(k)
 
@@ -301,6 +314,8 @@ def cases(draw, max_dims=4, max_len=3):
             n_el = 1
             A[role] = draw(gen.arrays(U, letters=pl, modes=("float",), tag=role, elems=st.floats(0.7, 6.0)))
             op["prms"][n] = role
+        op["via"] = draw(st.sampled_from(["ctor", "ctor", "set_prms"]))
+        op["touch"] = draw(st.sampled_from([None, None, "values", "setitem"]))
     perms = {}
     for role, a in A.items():
         if len(a["letters"]) > 1:
